@@ -399,6 +399,37 @@ func aliasCase(rep *Report, arena *guardArena, s *glue.Subject, d MD, idx int) {
 		}
 	}
 
+	// ---- (c0) the bytes already in the caller's buffer stay the caller's: an appending Marshal leaves them alone, in
+	// the slice it returns and in the caller's own array (with and without spare capacity, both entry points)
+	{
+		prefix := []byte("\x00caller-owned\xff")
+		for _, spare := range []int{0, 1 << 16} {
+			buf := make([]byte, len(prefix), len(prefix)+spare)
+			copy(buf, prefix)
+			var o []byte
+			var e error
+			entry := "MarshalOptions.MarshalAppend"
+			pan, _ = safely(func() {
+				if pm := subj.ProtoReflect().ProtoMethods(); idx%2 == 1 && pm != nil && pm.Marshal != nil {
+					entry = "ProtoMethods.Marshal(Buf=prefix)"
+					var mo protoiface.MarshalOutput
+					mo, e = pm.Marshal(protoiface.MarshalInput{Message: subj.ProtoReflect(), Buf: buf})
+					o = mo.Buf
+				} else {
+					o, e = plainOpts.MarshalAppend(buf, subj)
+				}
+			})
+			if pan || e != nil {
+				continue // C01/C04 territory
+			}
+			rep.Count("C07", "caller-buffer-prefix-checks", 1)
+			if !bytes.Equal(buf[:len(prefix)], prefix) || len(o) < len(prefix) || !bytes.Equal(o[:len(prefix)], prefix) {
+				rep.Violate("C07", "alias/marshal-disturbs-caller-buffer", tn, fmt.Sprintf("%s with %d bytes already in the buffer (spare capacity %d) overwrote them", entry, len(prefix), spare), rc)
+				break
+			}
+		}
+	}
+
 	// ---- (c) Marshal output shares no memory with the message
 	type outcase struct {
 		name string
